@@ -45,8 +45,18 @@ def py_ns(val, half, seqk, mapk):
     return d
 
 
-def py_terms(tl):
-    return [(el["c"] if el["c"] else "".join(el["t"])) for el in tl]
+def py_terms(tl, mix=False):
+    """mix: the same monomial sets spelled with the namespaces' letters interleaved ('xxa' as 'xax', 'xxaa' as 'xaax'): the order in
+    which the namespaces FIRST appear - which fixes the order of the crossing - stays the same"""
+    out = []
+    for el in tl:
+        if el["c"]: out.append(el["c"]); continue
+        t = list(el["t"])
+        if mix and len(set(t)) > 1 and t.count(t[0]) > 1:
+            f = t[0]      # keep the first letter first and move its repeats behind the other namespace
+            t = [f] + [c for c in t[1:] if c != f] + [f] * (t.count(f) - 1)
+        out.append("".join(t))
+    return out
 
 
 def short(val):
@@ -57,7 +67,7 @@ def short(val):
 
 def describe(case, rend):
     kw = ", ".join("%s=%s" % (n, short(case[n])) for n in ("x", "a") if case[n]["t"] != "absent")
-    return "InteractionsEncoder(%r).encode(%s) [%s]" % (py_terms(case["terms"]), kw, "/".join(map(str, rend)))
+    return "InteractionsEncoder(%r).encode(%s) [%s]" % (py_terms(case["terms"], bool(rend[0])), kw, "/".join(map(str, rend)))
 
 
 # ---- classes of input (for stable signatures only; expectations come from the spec) --------------------
@@ -123,7 +133,7 @@ def replay(case, rend, Enc, shared=None):
     """Returns None or (signature, what).  `shared`: {terms: encoder} of encoder objects that live across cases - the same
     object then serves dense, sparse and string-valued inputs in turn, and must answer each as a fresh encoder does."""
     half, seqk, mapk = rend
-    terms = py_terms(case["terms"])
+    terms = py_terms(case["terms"], bool(half))      # the second rendering also spells the terms with interleaved namespace letters
     kw = {n: py_ns(case[n], half, seqk, mapk) for n in ("x", "a") if case[n]["t"] != "absent"}
     absent, high = input_class(case)
     try:
@@ -213,7 +223,7 @@ def run(ctx):
     ctx.assumptions += [
         "feature names in the mapping form are ns + position/key (+ the string for a string-valued feature), as in the repository's own tests; the order of the names inside a key is not checked, the key of the constant is not checked (only that exactly one extra entry carries its value)",
         "mapping keys and string values never contain the namespace letters 'x' / 'a' (keys are split at those letters); no empty-string values; no two features of a case have the same name",
-        "terms are x^i a^j written with each namespace's letters adjacent ('xxa', 'axx'); namespaces are crossed in order of first appearance; no term list contains the same term (or two spellings of the same monomial set) twice",
+        "terms are x^i a^j, written with each namespace's letters adjacent ('xxa', 'axx') in the first rendering and interleaved ('xax', 'xaax') in the second; namespaces are crossed in order of first appearance; no term list contains the same term (or two spellings of the same monomial set) twice",
         "numeric constants are positive; several constants add up to one constant feature (test_dense_x_a_with_const)",
         "values are small distinct primes, one optional 0, and the same divided by two as floats: all products are exact, floating-point rounding is not explored",
         "when the only sparse-typed namespace is one that no term names, either output form is accepted",
